@@ -113,6 +113,52 @@ func (c *c19Case) Exec() {
 		}
 		return
 	}
+	if c.Mode == "dbslow" {
+		r := &dbRunner{dir: dir}
+		if err := r.open(dbOpts{MemstoreBytes: 1 << 30, Threshold: 1, MaxSize: 5 << 30, RatioPct: 100, WBuf: 4096, RBuf: 4096}); err != nil {
+			c.Fatal = "open: " + err.Error()
+			return
+		}
+		for t := 0; t < 3; t++ {
+			for _, st := range []dbStep{{Op: "put", K: []byte(fmt.Sprintf("k%d", t)), V: []byte("v")}, {Op: "rotate"}} {
+				st := st
+				r.step(&st)
+			}
+		}
+		tabs := r.db.VerifTables()
+		if len(tabs) < 3 {
+			c.Fatal = "setup: three tables expected"
+			return
+		}
+		slow := tabs[len(tabs)-1].Path
+		for i := 0; i < 30000; i++ {
+			f, err := os.Create(filepath.Join(slow, fmt.Sprintf("ballast-%05d", i)))
+			must(err)
+			f.Close()
+		}
+		st := dbStep{Op: "compact"}
+		r.step(&st)
+		live := map[string]bool{}
+		for _, t := range r.db.VerifTables() {
+			live[filepath.Base(t.Path)] = true
+		}
+		if err := r.db.Close(); err != nil {
+			c.Fatal = "close: " + err.Error()
+			return
+		}
+		// right now, with no grace period
+		gor := runtime.NumGoroutine() - base
+		ents, _ := os.ReadDir(dir)
+		for _, e := range ents {
+			if e.IsDir() && strings.HasPrefix(e.Name(), "sstable") && !live[e.Name()] {
+				c.Fatal = fmt.Sprintf("Close returned while the directory %s of a compacted-away table is still there (%d goroutines of the handle still running)", e.Name(), gor)
+				return
+			}
+		}
+		fds, maps := resourcesUnder(dir)
+		c.Closed = resObs{FDs: fds, Maps: maps, Gor: settle(base)}
+		return
+	}
 	if c.Mode == "dbbg" {
 		// background compactor with a 1ms ticker; tiny memstore so every few puts make a table and the compactor is
 		// busy almost all the time; Close arrives at an arbitrary moment of that activity
@@ -441,11 +487,18 @@ func genC19(r *rand.Rand, tier string) []Case {
 				if r.Intn(2) == 0 {
 					st.Torn = 1 + r.Intn(8) // recovery meets a WAL file whose header was never (completely) written
 				}
+				if r.Intn(2) == 0 {
+					st.TornMarker = 1 + r.Intn(2) // ... and a leftover compaction whose success marker was cut
+				}
 				c.Steps = append(c.Steps, st)
 			}
 		}
+		c.Steps = append(c.Steps, dbStep{Op: "reopen", TornMarker: 1 + i%2}, dbStep{Op: "get", K: keys[0]})
 		cases = append(cases, c)
 	}
+	// a compaction whose inputs take long to delete (tens of thousands of files in one input directory), Close right
+	// after it: when Close returns nothing of the compacted-away tables may be left or still being removed
+	cases = append(cases, &c19Case{Mode: "dbslow"})
 	return cases
 }
 
